@@ -198,13 +198,17 @@ def join(a, b):
                  own=a.own if a.own == b.own else None,
                  maj=a.maj if a.maj == b.maj else None,
                  flip=a.flip if a.flip == b.flip else False,
-                 c=a.c if a.c == b.c else None,
+                 c=(a.c if a.c == b.c else None) if a.flip == b.flip and
+                 'unoriented' not in (a.c, b.c) else 'unoriented',
                  lay=lay if any(lay) else None)
     if a.k == b.k and a.k not in ('const', 'tuple', 'list', 'recdict'):
         return V(a.k, ax=a.ax if a.ax == b.ax else None,
                  own=a.own if a.own == b.own else None,
                  maj=a.maj if a.maj == b.maj else None,
                  flip=a.flip if a.flip == b.flip else False,
+                 c='unoriented' if a.k == 'matrix' and (
+                     a.flip != b.flip or 'unoriented' in (a.c, b.c))
+                 else None,
                  lay=a.lay if a.lay == b.lay else None,
                  ref=a.ref if a.ref == b.ref else None)
     if a.k == b.k == 'tuple' and a.elts and b.elts and \
@@ -1287,6 +1291,17 @@ class AxisInterp:
     def subscript(self, e, env):
         base = self.ev(e.value, env)
         sl = e.slice
+        if base.k == 'tuple' and base.elts and isinstance(sl, ast.Slice):
+            # t[::-1] reverses; any other slice of a tuple is not followed
+            if sl.lower is None and sl.upper is None and isinstance(
+                    sl.step, ast.UnaryOp) and isinstance(
+                    sl.step.op, ast.USub) and isinstance(
+                    sl.step.operand, ast.Constant) and \
+                    sl.step.operand.value == 1:
+                return base.with_(elts=tuple(reversed(base.elts)))
+            if sl.lower is None and sl.upper is None and sl.step is None:
+                return base
+            return TOP
         if base.k == 'tuple' and base.elts:
             idx = self.ev(sl, env)
             if idx.k == 'const' and isinstance(idx.c, int) and \
@@ -1595,8 +1610,36 @@ class AxisInterp:
                 self.ev(kw.value, env)
             v = vs[0]
             if v.k in ('ids', 'list', 'order'):
-                return v.with_(fresh=True, lay=('new',))
+                res = v.with_(fresh=True, lay=('new',))
+                extra = [kw.arg for kw in e.keywords if kw.arg in (
+                    'return_index', 'return_inverse', 'return_counts')
+                    and not (isinstance(kw.value, ast.Constant) and
+                             not kw.value.value)]
+                if extra and name.endswith('unique'):
+                    # (sorted ids, positions on the same axis, ...)
+                    order = ['return_index', 'return_inverse',
+                             'return_counts']
+                    rest = tuple(V('pos', ax=v.ax, lay=('new',))
+                                 for k_ in order if k_ in extra)
+                    return V('tuple', elts=(res,) + rest)
+                return res
             return TOP
+        if name in ('np.cumsum', 'cumsum') and e.args:
+            v = self.ev(e.args[0], env)
+            if v.k == 'list' and v.el is not None and v.el.k == 'len':
+                return V('pos', ax=v.el.ax, c='bounds')
+            return TOP
+        if name in ('np.split', 'np.array_split') and len(e.args) >= 2:
+            a = self.ev(e.args[0], env)
+            b = self.ev(e.args[1], env)
+            if a.k in ('pos', 'ids', 'per', 'md') and a.ax and \
+                    b.k == 'pos' and b.c == 'bounds' and b.ax:
+                self.sink('MATOP', e, 'split-bounds',
+                          'ok' if a.ax == b.ax else 'bad',
+                          'an array along the %s axis is cut at bounds '
+                          'computed from the lengths of the %s axis'
+                          % (NAMEAX[a.ax], NAMEAX[b.ax]))
+            return V('list', el=a if a.k != 'top' else None)
         if name in ('set', 'list', 'dict') and not e.args:
             return V('list', el=None)
         if name in ('sorted', 'list', 'set', 'tuple', 'iter') and e.args:
